@@ -1202,6 +1202,28 @@ fn run_recon_history(out: &mut Sink, rng: &mut Rng, case: String) {
         }
         let pend = w.pending.clone();
         w.check_output_pages(&pend, &new_kvs, &format!("pass {pass}"));
+        // the pages that go to fresh buckets, through the REAL prepare_sync and the REAL recover over stale bucket content
+        if pass % 2 == 1 || pend.len() < 6 {
+            let fresh: Vec<crate::prepsync::FreshPage> = pend
+                .iter()
+                .filter(|p| p.bucket.is_none() && p.diff[1] & CLEAR_BIT == 0)
+                .map(|p| {
+                    let path = p.page_id.length_dependent_encoding().to_vec();
+                    let meaningful = (0..126)
+                        .filter(|&i| {
+                            let sp = slot_path(&path, i);
+                            sp.len() <= 256 && under(&new_kvs, &sp[..sp.len() - 1]).len() >= 2
+                        })
+                        .collect();
+                    crate::prepsync::FreshPage { pid: p.page_id.clone(), nodes: p.page.nodes.clone(), elided: p.page.elided, diff: p.diff, meaningful }
+                })
+                .collect();
+            if !fresh.is_empty() {
+                let mut r2 = Rng::new(digest(&pend[0].page) ^ (pass as u64) << 32 ^ fresh.len() as u64);
+                let dir = redo_dir();
+                crate::prepsync::redo_of_walker_pages(w.out, &mut r2, &dir, &fresh, &format!("{} pass {pass}", w.case));
+            }
+        }
         // a page that was reconstructed for this pass and is handed out was promoted: its diff must carry EVERY meaningful slot
         // (it goes to a fresh bucket), and it must not be handed out as cleared
         let recon_ids = w.recon_ids.clone();
@@ -1514,6 +1536,12 @@ fn run_directed(out: &mut Sink) {
     out.count("directed_cases");
 }
 
+fn redo_dir() -> String {
+    let d = format!("/dev/shm/nomt-verif-walkredo-{}", std::process::id());
+    let _ = std::fs::create_dir_all(&d);
+    d
+}
+
 pub fn run(seed: u64, cases: usize, focus: &str, out: &mut Sink) {
     let mut rng = Rng::new(seed ^ 0x57a1_4e55);
     let split_only = focus == "split";
@@ -1534,4 +1562,5 @@ pub fn run(seed: u64, cases: usize, focus: &str, out: &mut Sink) {
             run_history(out, &mut r, format!("walker --seed {seed} case {c}"));
         }
     }
+    let _ = std::fs::remove_dir_all(redo_dir());
 }
